@@ -156,6 +156,33 @@ func runC14(r *vhlib.Run) {
 							c.Name, names, got.cls, len(got.out), got.in, fresh.cls, len(fresh.out), fresh.in, got.pan), rp)
 					}
 				}
+				// the same history over sources that offer Read only (the Reader wraps them in its
+				// own buffering, which may still hold unread bytes of the previous source - here the
+				// previous stream is followed by a trailer): Reset must switch to the new source
+				if len(hist) > 0 && (len(hist)+ti)%2 == 0 {
+					first := append(append([]byte{}, pool[hist[0]%len(pool)]...), vhlib.RandBytes(rng, 1+rng.Intn(40))...)
+					z := c.New(&vhlib.ReadOnly{B: first})
+					var names []string
+					func() {
+						defer func() { recover() }()
+						for _, a := range hist[1:] {
+							names = append(names, acts[a].Name)
+							if len(acts[a].Name) >= 5 && acts[a].Name[:5] == "reset" {
+								continue // those re-point at bytes.Readers
+							}
+							acts[a].Do(z, rng)
+						}
+					}()
+					z.Reset(&vhlib.ReadOnly{B: target})
+					got := readFinal(z)
+					freshRO := readFinal(c.New(&vhlib.ReadOnly{B: target}))
+					r.Eval("reader-readonly-sources:"+c.Name, true, []byte(fmt.Sprint(c.Name, hist, ti)))
+					if !got.eq(freshRO) {
+						r.Violate("reset-not-fresh", fmt.Sprintf("%s.Reader over Read-only sources: after %v + Reset: class=%s out=%d in=%d; fresh: class=%s out=%d in=%d (panic %q)",
+							c.Name, names, got.cls, len(got.out), got.in, freshRO.cls, len(freshRO.out), freshRO.in, got.pan),
+							map[string]interface{}{"type": c.Name + ".Reader", "sources": "Read-only", "first_stream": fmt.Sprintf("pool%d+trailer", hist[0]%len(pool)), "history": names, "target_hex": vhlib.Hex(target)})
+					}
+				}
 				if d == 0 {
 					return
 				}
